@@ -68,6 +68,12 @@ def conc_part(chk, tier, rng, own_tags, scale=1.0):
     cbin = conc_bin()
     n = int((60 if tier == 'quick' else 3000) * scale)
     jobs = []
+    cp = os.path.join(vlib.ROOT, 'corpus', 'conc', 'args.txt')
+    if os.path.exists(cp):
+        for l in open(cp):
+            l = l.strip()
+            if l and not l.startswith('#'):
+                jobs.append((cbin, [int(x) for x in l.split()]))
     for i in range(n):
         nw = rng.range(2, 4 if tier == 'quick' else 8)
         nr = rng.range(0, 3)
